@@ -269,3 +269,44 @@ class Report:
         }
         with open(os.path.join(evidence_dir, "%s.json" % self.pid), "w") as fh:
             json.dump(ev, fh, indent=1, default=str)
+
+
+
+class Relay:
+    """Forwards the obligations a rule function of another property produces to `rep` under this property's
+    own rule id, keeping only those `keep(func, construct)` selects.  Lets a property re-run the rule that
+    decides a clause it shares with a sibling property (a checker is run per property)."""
+
+    def __init__(self, rep, rule_map, keep=None):
+        self.rep, self.rule_map, self.keep = rep, rule_map, keep
+        self.stats = rep.stats
+
+    def _go(self, meth, rule, func, construct, *a, **kw):
+        if rule not in self.rule_map:
+            return None
+        if self.keep is not None and not self.keep(func, construct):
+            return None
+        return getattr(self.rep, meth)(self.rule_map[rule], func, construct, *a, **kw)
+
+    def holds(self, rule, func, construct, *a, **kw):
+        return self._go("holds", rule, func, construct, *a, **kw)
+
+    def violation(self, rule, func, construct, *a, **kw):
+        return self._go("violation", rule, func, construct, *a, **kw)
+
+    def undecided(self, rule, func, construct, *a, **kw):
+        return self._go("undecided", rule, func, construct, *a, **kw)
+
+    def info(self, rule, func, construct, *a, **kw):
+        return self._go("info", rule, func, construct, *a, **kw)
+
+    def check(self, cond, rule, func, construct, ok="", bad="", node=None, **kw):
+        if cond:
+            return self.holds(rule, func, construct, ok, node, **kw)
+        return self.violation(rule, func, construct, bad, node, **kw)
+
+    def rule(self, *a, **kw):
+        pass
+
+    def note(self, text):
+        self.rep.note(text)
